@@ -154,6 +154,13 @@ FAMS = {
     'unorderable_keys_with_pretty_repr_default_sorted': (lambda n: nest(lambda v: {KeyObj(v): 1, 2: 2}, n, 1), {'_defaults': {'sort_dict_keys': True}}),
     'unorderable_keys_flat': (lambda n: {**{KeyObj(i): i for i in range(3 * n)}, **{str(i): i for i in range(3 * n)}}, {'sort_dict_keys': True}),
     'nested_dataclasses': (lambda n: nest(lambda v: DC(v), n, 1), {}),
+    # sorting dict keys: deeply nested tuple keys, with a comment on the innermost element / equal but for an innermost pair that `<` cannot order
+    'sorted_deep_tuple_keys_commented': (lambda n: {nest(lambda v: (v,), n, pp.comment(1, 'c')): 1, nest(lambda v: (v,), n, 2): 2, (0,): 0},
+                                         {'sort_dict_keys': True}),
+    'sorted_deep_tuple_keys_unordered': (lambda n: {nest(lambda v: (v, 0), n, 1j): 1, nest(lambda v: (v, 0), n, 2j): 2, nest(lambda v: (v, 0), n, 1): 3},
+                                         {'sort_dict_keys': True}),
+    'sorted_many_mixed_keys': (lambda n: {**{i: 0 for i in range(4 * n)}, **{str(i): 0 for i in range(4 * n)}, **{(i, 'x'): 0 for i in range(2 * n)}},
+                               {'sort_dict_keys': True}),
 }
 sizes = json.loads(sys.argv[1])
 rows = {}
@@ -265,7 +272,7 @@ def cost_section(tier, seed):
     stats = {'evaluations': tot, 'distinct_nontrivial': nt, 'families': len(rows), 'sizes': [base * m for m in mults],
              'ratio_limit': RATIO, 'rows': rows, 'mismatches': 0,
              'samples': [{'family': 'nested_dicts_3keys', 'steps': rows['nested_dicts_3keys']['steps']}],
-             'rule': 'LINE events inside /repo/prettyprinter (sys.monitoring) for %d families (incl. 7 measured in a fresh interpreter with the ipython_repr_pretty / dataclasses / attrs extras: nested _repr_pretty_ objects, unorderable dict keys whose repr is pretty_repr, nested dataclasses) at n = %s; a family fails if a doubling multiplies the step count by more than %.0f, '
+             'rule': 'LINE events inside /repo/prettyprinter (sys.monitoring) for %d families (incl. 10 measured in a fresh interpreter with the ipython_repr_pretty / dataclasses / attrs extras: nested _repr_pretty_ objects, unorderable dict keys whose repr is pretty_repr, nested dataclasses) at n = %s; a family fails if a doubling multiplies the step count by more than %.0f, '
                      'if the step budget is exceeded, or if steps exceed 4 x the calibrated constant x the model cost (printer invocations + machine and lookahead iterations); '
                      'non-trivial = families measured' % (len(rows), [base * m for m in mults], RATIO)}
     return stats, mism, fails
